@@ -251,4 +251,5 @@ VARIANTS = [
      "            and not connection.encryption\n        ):\n            raise ATT_Error(\n                error_code=ATT_INSUFFICIENT_ENCRYPTION_ERROR, att_handle=self.handle\n            )\n        if (\n            (self.permissions & self.READ_REQUIRES_AUTHENTICATION)",
      "            and not connection.encryption\n        ):\n            raise ATT_Error(\n                error_code=ATT_INSUFFICIENT_AUTHENTICATION_ERROR, att_handle=self.handle\n            )\n        if (\n            (self.permissions & self.READ_REQUIRES_AUTHENTICATION)", 'fire', 'C11.gate'),
     ('permission bits collide', 'bumble/att.py', "        WRITE_REQUIRES_ENCRYPTION = 0x08\n", "        WRITE_REQUIRES_ENCRYPTION = 0x04\n", 'fire', 'C11.bits'),
+    ('refusal escapes the find-by-type-value task', 'bumble/gatt_server.py', "            try:\n                if (await attribute.read_value(bearer)) != request.attribute_value:\n                    continue\n            except att.ATT_Error:\n                # An attribute that cannot be read on this bearer does not match\n                continue\n", "            if (await attribute.read_value(bearer)) != request.attribute_value:\n                continue\n", 'fire', 'C11.access'),
 ]
